@@ -8,9 +8,12 @@ import (
 	"context"
 	"fmt"
 	"github.com/jackc/pgx/v4"
+	"github.com/shutter-network/rolling-shutter/rolling-shutter/shdb"
 	"sort"
+	"strings"
 	"sync"
 	"time"
+	"verifharness/dkgsim"
 
 	"github.com/ethereum/go-ethereum/common"
 
@@ -27,11 +30,13 @@ import (
 func main() {
 	var n int
 	vlib.Main(&vlib.Check{
-		ID:    "C20",
-		Level: "exploration",
+		ID:          "C20",
+		Level:       "exploration",
+		CaseTimeout: 60 * time.Second,
 		Rule: "case = one history of 6 polling ticks; before each tick 0..4 successful key generations are recorded through the repository's InsertBatchConfig/InsertEon/InsertEonPublicKey queries (one or several keyper sets, restarts of the same set, any order), both publication modes (gossip broadcast with signature check, callback), all three table scan orders of the in-memory Postgres; " +
 			"oracle: multiset of publications == multiset of recorded key generations (eon, key bytes, activation block, keyper-set index). distinct = (mode, scan order, per-tick counts, set layout); non-trivial = some tick had >=2 pending keys",
 		Assumptions: []string{
+			"family e2e (idx%250==7): the key generations are real — three honest keypers are driven through the real shuttermint observer on their own databases over two keyper sets (in two thirds of the runs one keyper is left out of the second set), the polling step runs on every keyper's database every 1..4 rounds, and each keyper's publications must equal its successful dkg_result rows; the own position in a keyper set varies (0..2) in all families",
 			"in two thirds of the histories the publication mechanism accepts everything offered (multiset equality asserted); in one third it refuses some eons, and only 'never handed over twice once accepted' is asserted",
 			"only eons of keyper sets the keyper belongs to are recorded (as finalizeDKG does)",
 			"one sixth of the histories record the key generations from a second goroutine while the polling step runs (verdict at quiescence); statement atomicity is pgmem's (each statement executes under the engine lock, as one Postgres statement is atomic)",
@@ -46,6 +51,8 @@ func main() {
 			agg.Require("ticks_with_refusal", 100)
 			agg.Require("concurrent_histories", 100)
 			agg.Require("loop_histories", 20)
+			agg.Require("e2e_successful_key_generations", 100)
+			agg.Require("e2e_runs_with_a_keyper_left_out_of_the_newest_set", 10)
 		},
 	})
 }
@@ -69,7 +76,7 @@ func loopCase(ctx context.Context, env *vlib.Env, idx int, r *vlib.Rng, rep *vli
 	nKeys := 2 + r.Intn(3)
 	var want []pub
 	act := int64(100)
-	if err := dbfix.InsertKeyperSet(ctx, node.Pool, 1, act, append([]common.Address{}, kp.Addrs...), 2, false); err != nil {
+	if err := dbfix.InsertKeyperSet(ctx, node.Pool, 1, act, rotated(kp.Addrs, r.Intn(3)), 2, false); err != nil {
 		rep.Inconclusive("insert keyper set: " + err.Error())
 		return
 	}
@@ -174,7 +181,7 @@ func concurrentCase(ctx context.Context, env *vlib.Env, idx int, r *vlib.Rng, re
 		if cfgIdx == 0 || r.Chance(1, 3) {
 			cfgIdx++
 			act = 100*cfgIdx + int64(r.Intn(50))
-			if err := dbfix.InsertKeyperSet(ctx, node.Pool, cfgIdx, act, append([]common.Address{}, kp.Addrs...), 2, false); err != nil {
+			if err := dbfix.InsertKeyperSet(ctx, node.Pool, cfgIdx, act, rotated(kp.Addrs, r.Intn(3)), 2, false); err != nil {
 				rep.Inconclusive("insert keyper set: " + err.Error())
 				return
 			}
@@ -206,7 +213,9 @@ func concurrentCase(ctx context.Context, env *vlib.Env, idx int, r *vlib.Rng, re
 		}
 		if err := h.VerifQueryAndHandle(ctx); err != nil {
 			rep.Violationf("tick-error", map[string]any{"mode": "concurrent"}, "polling step failed although publication accepts everything: %v", err)
-			<-done
+			if running {
+				<-done // the producer has not been collected yet
+			}
 			return
 		}
 		ticks++
@@ -259,6 +268,12 @@ func (p pub) String() string {
 	return fmt.Sprintf("eon=%d act=%d cfg=%d key=%x", p.Eon, p.Activation, p.Cfg, p.Key)
 }
 
+// rotated returns a copy of as starting at position k.
+func rotated(as []common.Address, k int) []common.Address {
+	out := append([]common.Address{}, as[k%len(as):]...)
+	return append(out, as[:k%len(as)]...)
+}
+
 func runCase(env *vlib.Env, idx int, rep *vlib.Reporter) {
 	ctx := context.Background()
 	r := vlib.NewRng(env.Seed, 20, uint64(idx))
@@ -272,7 +287,7 @@ func runCase(env *vlib.Env, idx int, rep *vlib.Reporter) {
 	defer node.Close()
 	node.DB.SetScanOrder(scan, env.Seed+uint64(idx))
 	kp := fixtures.NewKeypers(env.Seed+uint64(idx%5), 3)
-	me := 1
+	me := (idx / 7) % 3 // the own position in a keyper set additionally varies with the set's member order
 	cfg := dbfix.KeyperConfig(77, kp.Keys[me], kp.Keys[me], make([]byte, 32), 100)
 	// in a third of the cases the publication mechanism refuses some eons (every time they are
 	// offered); then only the upper bound of "exactly once" is asserted: nothing the mechanism
@@ -319,6 +334,10 @@ func runCase(env *vlib.Env, idx int, rep *vlib.Reporter) {
 		loopCase(ctx, env, idx, r, rep, node, kp, q, h, broadcast, rec, &cbGot, &cbDelay, me)
 		return
 	}
+	if idx%250 == 7 {
+		e2eCase(ctx, env, idx, r, rep)
+		return
+	}
 	if idx%6 == 1 {
 		concurrentCase(ctx, env, idx, r, rep, node, kp, q, h, broadcast, rec, &cbGot, me)
 		return
@@ -340,7 +359,7 @@ func runCase(env *vlib.Env, idx int, rep *vlib.Reporter) {
 				nextCfg++
 				act := int64(100*nextCfg) + int64(r.Intn(50))
 				cfgAct[nextCfg] = act
-				addrs := append([]common.Address{}, kp.Addrs...)
+				addrs := rotated(kp.Addrs, r.Intn(3))
 				if err := dbfix.InsertKeyperSet(ctx, node.Pool, nextCfg, act, addrs, 2, false); err != nil {
 					rep.Inconclusive("insert keyper set: " + err.Error())
 					return
@@ -480,4 +499,145 @@ func diff(want, got []pub) (missing, extra []string) {
 	sort.Strings(missing)
 	sort.Strings(extra)
 	return
+}
+
+// e2eCase: real key generations (three honest keypers driven through the real shuttermint
+// observer on their own databases, two keyper sets, optionally one keyper left out of the second
+// set) with the real polling step run on every keyper's database after every round. Oracle: for
+// every keyper, the multiset of publications equals its successful dkg_result rows (eon, key of
+// the stored result, activation block and index of the eon's keyper set).
+func e2eCase(ctx context.Context, env *vlib.Env, idx int, r *vlib.Rng, rep *vlib.Reporter) {
+	n, t := 3, 2
+	excl := -1
+	if r.Chance(2, 3) {
+		excl = r.Intn(n)
+	}
+	dkgsim.LastSetExcludes = excl
+	defer func() { dkgsim.LastSetExcludes = -1 }()
+	phaseLen := int64(4 + r.Intn(3)) // with a phase of 3 blocks no dealing arrives in time (the keypers act one block behind)
+	s, err := dkgsim.NewSimSets(ctx, env.Seed^uint64(idx)*0x9E3779B97F4A7C15, n, t, phaseLen, nil, 2)
+	if err != nil {
+		rep.Inconclusive("setup: " + err.Error())
+		return
+	}
+	defer s.Close()
+	got := make([][]pub, n)
+	var hs []*keyper.VerifEonPubKeyHandler
+	for i, k := range s.Keypers {
+		i := i
+		cb := func(_ context.Context, e keyper.EonPublicKey) error {
+			got[i] = append(got[i], pub{e.Eon, e.ActivationBlock, e.KeyperConfigIndex, string(e.PublicKey)})
+			return nil
+		}
+		hs = append(hs, keyper.VerifNewEonPubKeyHandler(k.Node.Pool, k.Cfg, &dbfix.RecMessaging{}, cb, false))
+	}
+	pollEvery := 1 + r.Intn(4)
+	rounds := 0
+	for ; rounds < int(phaseLen)*12+40; rounds++ {
+		for _, i := range r.Perm(n) {
+			if err := s.Keypers[i].Step(ctx); err != nil {
+				rep.Inconclusive(fmt.Sprintf("keyper %d step: %v", i, err))
+				return
+			}
+		}
+		s.Chain.CloseBlock()
+		if rounds%pollEvery == 0 {
+			for i, h := range hs {
+				if err := h.VerifQueryAndHandle(ctx); err != nil {
+					rep.Violationf("tick-error", map[string]any{"mode": "e2e", "keyper": i, "round": rounds}, "polling step of keyper %d failed in round %d: %v", i, rounds, err)
+					return
+				}
+			}
+		}
+		// both key generations recorded by everyone who takes part?
+		doneAll := true
+		for i, k := range s.Keypers {
+			rows := k.Node.DB.Snapshot().Rows("dkg_result")
+			wantRows := 2
+			if i == excl {
+				wantRows = 1
+			}
+			if len(rows) < wantRows {
+				doneAll = false
+			}
+		}
+		if doneAll {
+			break
+		}
+	}
+	for i, h := range hs {
+		for j := 0; j < 2; j++ {
+			if err := h.VerifQueryAndHandle(ctx); err != nil {
+				rep.Violationf("tick-error", map[string]any{"mode": "e2e", "keyper": i}, "polling step of keyper %d failed: %v", i, err)
+				return
+			}
+		}
+	}
+	rep.Obs("e2e_runs", 1)
+	if excl >= 0 {
+		rep.Obs("e2e_runs_with_a_keyper_left_out_of_the_newest_set", 1)
+	}
+	shape := fmt.Sprintf("e2e/excl=%d/phase=%d/poll=%d", excl, phaseLen, pollEvery)
+	for i, k := range s.Keypers {
+		snap := k.Node.DB.Snapshot()
+		var want []pub
+		for _, row := range snap.Rows("dkg_result") {
+			if ok, _ := row["success"].(bool); !ok {
+				rep.Obs("e2e_failed_key_generations", 1)
+				continue
+			}
+			eon := row["eon"].(int64)
+			res, err := shdb.DecodePureDKGResult(row["pure_result"].([]byte))
+			if err != nil {
+				rep.Inconclusive("decode result: " + err.Error())
+				return
+			}
+			key, _ := res.PublicKey.GobEncode()
+			var cfgIdx, act int64 = -1, -1
+			for _, er := range snap.Rows("eons") {
+				if er["eon"].(int64) == eon {
+					cfgIdx = er["keyper_config_index"].(int64)
+				}
+			}
+			for _, sr := range snap.Rows("keyper_set") {
+				if sr["keyper_config_index"].(int64) == cfgIdx {
+					act = sr["activation_block_number"].(int64)
+				}
+			}
+			want = append(want, pub{uint64(eon), uint64(act), uint64(cfgIdx), string(key)})
+		}
+		rep.Obs("e2e_successful_key_generations", int64(len(want)))
+		if len(want) == 0 {
+			rep.Obs("e2e_keypers_without_success", 1)
+		}
+		if d := diffPubs(want, got[i]); d != "" {
+			rep.Violationf("e2e:"+d[:strings.Index(d+":", ":")], map[string]any{"shape": shape, "keyper": i, "diff": d, "rounds": rounds},
+				"keyper %d: publications differ from its successful key generations: %s", i, d)
+			return
+		}
+	}
+	rep.Eval(shape, true)
+	if u := s.Keypers[0].Node.CheckUnsupported(); u != "" {
+		rep.Inconclusive("substrate: " + u)
+	}
+}
+
+// diffPubs compares two multisets; "" if equal, else "<kind>: detail".
+func diffPubs(want, got []pub) string {
+	cnt := map[pub]int{}
+	for _, p := range want {
+		cnt[p]++
+	}
+	for _, p := range got {
+		cnt[p]--
+	}
+	for p, c := range cnt {
+		if c > 0 {
+			return fmt.Sprintf("missing: eon %d (set %d, activation %d) was never handed to publication", p.Eon, p.Cfg, p.Activation)
+		}
+		if c < 0 {
+			return fmt.Sprintf("unexpected: eon %d (set %d, activation %d) handed over %d time(s) too many or with wrong fields", p.Eon, p.Cfg, p.Activation, -c)
+		}
+	}
+	return ""
 }
